@@ -50,6 +50,8 @@ func main() {
 	out := flag.String("out", "", "output JSON file (default stdout)")
 	dumpSMT := flag.String("dump", "", "directory to dump .smt2 files")
 	knownF := flag.String("known", "", "known_findings.json (carve-outs)")
+	sweepAll := flag.Bool("sweepall", false, "discovery: emit the zero-annotation safety sweep (C02) for every module function")
+	sweepFile := flag.String("sweep", "/verif/baseline/sweep_claimed.json", "JSON list of function keys whose safety sweep is claimed")
 	split := flag.Bool("split", false, "debugging: split conjunctive goals into one obligation per conjunct")
 	showMod := flag.String("modset", "", "print the mod-set of functions whose key contains this and exit")
 	flag.Parse()
@@ -356,6 +358,91 @@ func main() {
 			if rep.Obls > 0 || rep.Error != "" {
 				output.Functions = append(output.Functions, rep)
 			}
+		}
+	}
+	// zero-annotation safety sweep (C02): no explicit panic reachable, no nil dereference, index,
+	// slice, make-size, division or type-assertion failure -- for the claimed functions
+	if len(want) == 0 || want["C02"] {
+		claimed := map[string]bool{}
+		if b, err := os.ReadFile(*sweepFile); err == nil {
+			var ks []string
+			if json.Unmarshal(b, &ks) == nil {
+				for _, k := range ks {
+					claimed[k] = true
+				}
+			}
+		}
+		var fns []*ssa.Function
+		for fn := range g.allFuncs {
+			if fn.Blocks == nil || !inModulePkg(pkgOf(fn)) || fn.Synthetic != "" {
+				continue
+			}
+			k := g.funcKey[fn]
+			if k == "" || strings.HasSuffix(k, ".init") || strings.Contains(k, "/cmd/") || strings.Contains(k, "starlarktest") || strings.Contains(k, "/repl") {
+				continue
+			}
+			if *fnFilter != "" && !strings.Contains(k, *fnFilter) {
+				continue
+			}
+			if *sweepAll || claimed[k] {
+				fns = append(fns, fn)
+			}
+		}
+		sort.Slice(fns, func(i, j int) bool { return g.funcKey[fns[i]] < g.funcKey[fns[j]] })
+		prelude := preludeCommon + wrapDefs()
+		for _, fn := range fns {
+			k := g.funcKey[fn]
+			var con FuncContract
+			if base := g.contractFor(fn); base != nil && !base.Trusted {
+				con = *base
+				con.Ensures, con.Asserts, con.BodyEnsures = nil, nil, nil // only the safety obligations are wanted here
+				con.HasMod, con.ModAll, con.Modifies, con.Pure = false, false, nil, false
+			} else if base != nil && base.Trusted {
+				continue
+			} else {
+				con = FuncContract{Pkg: pkgOf(fn).Pkg.Path(), Key: k, Invariants: map[int][]Clause{}, BodyEnsures: map[int][]Clause{}, Arith: "int"}
+			}
+			con.Sweep = true
+			con.NoPanic = true
+			con.Props = []string{"C02"}
+			c := newFnCtx(g, fn, &con)
+			c.sweepOnly = true
+			err := c.run()
+			rep := FnReport{Fn: shortFnName(k), Key: k, Arith: con.Arith, Props: []string{"C02"}, Notes: c.notes, Loops: len(c.loops)}
+			for _, b := range fn.Blocks {
+				rep.Instrs += len(b.Instrs)
+			}
+			if err != nil {
+				rep.Error = err.Error()
+				output.Obligations = append(output.Obligations, &Obligation{Name: shortFnName(k) + "/sweep-vcgen", Fn: shortFnName(k), Kind: "vcgen",
+					Props: []string{"C02"}, Backend: "static", Static: err.Error()})
+				output.Functions = append(output.Functions, rep)
+				continue
+			}
+			decls := c.sb.String()
+			for _, o := range c.obls {
+				switch o.Kind {
+				case "nilderef", "bounds", "slice", "makesize", "div0", "typeassert", "panic":
+				default:
+					continue
+				}
+				o.Name = strings.Replace(o.Name, "/", "/safe:", 1)
+				o.Props = []string{"C02"}
+				o.SMT = withAxioms(prelude, decls[:o.declLen]+fmt.Sprintf("(assert %s)\n(assert (not %s))\n", o.cur, o.goal))
+				o.Params = c.params
+				output.Obligations = append(output.Obligations, o)
+				rep.Obls++
+			}
+			// vacuity: some exit reachable
+			if len(c.rets) > 0 && rep.Obls > 0 {
+				var rs []string
+				for _, r := range c.rets {
+					rs = append(rs, r.st.cur)
+				}
+				output.Obligations = append(output.Obligations, &Obligation{Name: shortFnName(k) + "/safe:exit-sat#1", Fn: shortFnName(k), Kind: "exit-sat", Props: []string{"C02"},
+					Clause: "some exit reachable", Backend: "smt", Cover: true, SMT: withAxioms(prelude, decls+fmt.Sprintf("(assert %s)\n", sOr(rs...)))})
+			}
+			output.Functions = append(output.Functions, rep)
 		}
 	}
 	// lemmas: closed facts about spec functions
